@@ -297,6 +297,8 @@ int main(void) {
                 size_t ns = 0, cap = 16, i; ZSTD_Sequence* sv = (ZSTD_Sequence*)malloc(cap * sizeof *sv); char* t; char* s2 = NULL; size_t ocap = ZSTD_compressBound(n) + 1024; unsigned char* out = (unsigned char*)malloc(ocap);
                 if (sq[0] != '-') for (t = strtok_r(sq, ",", &s2); t; t = strtok_r(NULL, ",", &s2)) { unsigned a, b, c; if (sscanf(t, "%u:%u:%u", &a, &b, &c) == 3) { if (ns == cap) { cap *= 2; sv = (ZSTD_Sequence*)realloc(sv, cap * sizeof *sv); } sv[ns].offset = a; sv[ns].litLength = b; sv[ns].matchLength = c; sv[ns].rep = 0; ns++; } }
                 { ZSTD_Sequence* exact = (ZSTD_Sequence*)malloc((ns ? ns : 1) * sizeof *sv); memcpy(exact, sv, ns * sizeof *sv); free(sv); sv = exact; (void)i; }   /* exact-size array: ASan sees reads past it */
+                /* explicit delimiters may cut blocks far smaller than the block size limit: 3 bytes of block header each, beyond what ZSTD_compressBound budgets */
+                ocap += 4 * ns; free(out); out = (unsigned char*)malloc(ocap);
                 if (d && !ZSTD_isError(r)) r = ZSTD_CCtx_loadDictionary(cctx, d, dn);
                 if (!ZSTD_isError(r)) r = ZSTD_compressSequences(cctx, out, ocap, sv, ns, in, n);
                 if (ZSTD_isError(r)) printf("err %s\n", zv_errclass(r)); else { zv_puthex(out, r); putchar('\n'); }
